@@ -21,7 +21,7 @@ TInit == /\ t = 1 /\ l = 1 /\ reg = <<>> /\ ctx = <<>>
          /\ opts = DefaultOptions
          /\ TLCSet(1, <<>>)          \* failures
          /\ TLCSet(2, 0)             \* events judged
-         /\ TLCSet(3, 0)             \* events whose own clause was exercised non-trivially
+         /\ TLCSet(3, 0)             \* events skipped because an earlier result of the trace was malformed
 
 Fail(tr, ln, ev, clause, detail) ==
   TLCSet(1, Append(TLCGet(1), [trace |-> tr.id, line |-> ln, act |-> ev.act, prop |-> ev.prop,
@@ -34,6 +34,7 @@ TStep ==
          v == Judge(ev, reg, opts, ctx)
          last == l >= Len(tr.events)
      IN /\ TLCSet(2, TLCGet(2) + 1)
+        /\ IF v.abort /\ ~last THEN TLCSet(3, TLCGet(3) + (Len(tr.events) - l)) ELSE TRUE
         /\ IF v.wf = "ok" THEN TRUE ELSE Fail(tr, l, ev, "wellformed", v.wf)
         /\ IF v.poison = "ok" THEN TRUE ELSE Fail(tr, l, ev, "poison", v.poison)
         /\ IF v.own = "ok" THEN TRUE ELSE Fail(tr, l, ev, v.own, "")
@@ -49,5 +50,6 @@ TStep ==
 TSpec == TInit /\ [][TStep]_tvars
 
 Report ==
-  PrintT(<<"VERDICT", ToJson([failures |-> TLCGet(1), events |-> TLCGet(2), traces |-> Len(TraceList)])>>)
+  PrintT(<<"VERDICT", ToJson([failures |-> TLCGet(1), events |-> TLCGet(2), skipped |-> TLCGet(3),
+                              traces |-> Len(TraceList)])>>)
 =============================================================================
